@@ -333,7 +333,11 @@ type Oracle struct {
 	// after operations acknowledged later in the same process, as long as they
 	// are legal (contiguous) at that point and displace nothing.
 	Late  []Op
-	fresh bool // no observation yet since Restart
+	// Ghosts are appends that were in flight at a crash. If a later recovery
+	// shows such a batch although an earlier one showed it absent, the batch was
+	// resurrected from stale bytes.
+	Ghosts []Op
+	fresh  bool // no observation yet since Restart
 	// LateApplied counts reopens explained only by a late-applied failed append.
 	LateApplied int
 }
@@ -426,6 +430,12 @@ func (or *Oracle) Failed(o Op) {
 // InFlight records the operation that was executing when the process died.
 func (or *Oracle) InFlight(o Op) {
 	or.MaybeOps++
+	if o.Kind == OpAppend && len(o.Entries) > 0 {
+		or.Ghosts = append(or.Ghosts, o)
+		if len(or.Ghosts) > 8 {
+			or.Ghosts = or.Ghosts[len(or.Ghosts)-8:]
+		}
+	}
 	or.Disk = maybeAll(or.Disk, o)
 }
 
@@ -563,3 +573,23 @@ func (or *Oracle) Definite() *State {
 
 // Cur returns a representative in-memory candidate (the first).
 func (or *Oracle) Cur() *State { return or.Mem[0] }
+
+// GhostExplains reports whether the observation equals some candidate state
+// extended by one earlier in-flight (never acknowledged) batch that is not part
+// of that candidate: a rolled-back batch that came back.
+func (or *Oracle) GhostExplains(o *Obs) *Op {
+	for _, s := range or.Mem {
+		for i := range or.Ghosts {
+			g := or.Ghosts[i]
+			if !s.Legal(g) {
+				continue
+			}
+			c := s.Clone()
+			c.Apply(g)
+			if c.matchLog(o) == "" {
+				return &or.Ghosts[i]
+			}
+		}
+	}
+	return nil
+}
